@@ -1,5 +1,5 @@
 (* C12 -- body size hints and the end-of-stream flag are truthful at every step. *)
-From HS Require Import Lib.Base Model.Body Model.Chunker Proofs.BodyP Proofs.BodyRun Proofs.ChunkerP.
+From HS Require Import Lib.Base Model.Body Model.Chunker Proofs.BodyP Proofs.BodyRun Proofs.ChunkerP Proofs.EosContract.
 
 (* Bodies from serve (Once, ExactLen, Multipart) and from Body::from / Body::empty (Once) give an
    exact hint (body_hint is a number, lower = upper). At every point of every run that goes on to
@@ -30,6 +30,22 @@ Theorem c12_honest_ends : forall streams x, honest_x x ->
   exists rs bf, run (S (length (x_s x))) streams (BExact x) = Ok (rs, bf) /\ existsb is_pend rs = true.
 Proof. exact honest_exact_ends. Qed.
 
+(* The flag clause at full strength for ExactLen bodies (200 and single-range 206): over EVERY entity
+   stream within the get_range contract -- exactly the announced bytes, or an early failure after which
+   the stream only fails again, stays pending or ends -- at every point of every run, once the body says
+   it is at end-of-stream no later poll delivers a byte or reports an error. *)
+Theorem c12_eos_means_nothing_more : forall n1 n2 streams x rs1 bm rs2 bf, contract_x x ->
+  run n1 streams (BExact x) = Ok (rs1, bm) -> body_eos bm = true ->
+  run n2 streams bm = Ok (rs2, bf) ->
+  existsb is_perr rs2 = false /\ delivered rs2 = 0.
+Proof. exact eos_means_nothing_more. Qed.
+
+(* Multipart bodies, for ANY part streams: the flag is set only once the body is done (after the closing
+   delimiter, or fused after an error), and from then on every poll is a clean end. *)
+Theorem c12_multipart_eos_means_nothing_more : forall n streams m rs bf, MInv m -> body_eos (BMulti m) = true ->
+  run n streams (BMulti m) = Ok (rs, bf) -> existsb is_perr rs = false /\ delivered rs = 0 /\ bf = BMulti m.
+Proof. exact mp_eos_means_nothing_more. Qed.
+
 (* Body::from(..) / Body::empty(): exact hint = length; at end-of-stream exactly when taken or empty *)
 Theorem c12_once : forall o, body_hint (BOnce o) = match o with Some d => lenN d | None => 0 end /\
                              (body_eos (BOnce o) = true <-> o = None).
@@ -58,3 +74,5 @@ Print Assumptions c12_eos_no_more_data.
 Print Assumptions c12_honest_no_error.
 Print Assumptions c12_honest_ends.
 Print Assumptions c12_once.
+Print Assumptions c12_eos_means_nothing_more.
+Print Assumptions c12_multipart_eos_means_nothing_more.
